@@ -225,7 +225,12 @@ struct Controller {
   }
 };
 
+// a replay that ends in DEADLOCK / LIVELOCK leaves its threads parked for ever; bound that leak per process
+int g_abandoned = 0;
+constexpr int kMaxAbandoned = 40;
+
 std::string do_run(const std::string& rest) {
+  if (g_abandoned >= kMaxAbandoned) return "SKIPPED-after-too-many-abandoned-replays # ";
   std::vector<std::string> parts = split(rest, '|');
   if (parts.size() != 2) return "bad-op";
   std::vector<Op> hist;
@@ -290,6 +295,7 @@ std::string do_run(const std::string& rest) {
   if (!verdict.empty()) {
     // the stuck threads stay parked on the abandoned scheduler for ever; nothing of this run is reused
     out += (out.empty() ? "" : " ") + verdict;
+    g_abandoned++;
     g.mode.store(c03::PASS);
   } else {
     g.mode.store(c03::PASS);
@@ -333,7 +339,7 @@ std::string do_free(const std::string& rest) {
   c03::tl_rng = 0;
   c03::tl_free_id = 0;
   g.mode.store(c03::FREE);
-  alarm(300);
+  alarm(120);
   std::vector<std::string> toks;
   run_history(hist, d, &L, &toks);
   alarm(0);
